@@ -52,9 +52,15 @@ func VerifH_http_recv_stream() {
 	}
 	rec := &fakeCodec{name: "fake"}
 	in := schemaRoute()
+	// receive limit: above every message, or (C08) below the longest one - then the first message
+	// over the limit must never be delivered, however its bytes arrive (also together with io.EOF)
+	limit := longest + 1
+	if longest >= 2 && vfBool() {
+		limit = longest - 1
+	}
 	s := &streamHTTP{
 		opts: muxOptions{
-			maxReceiveMessageSize: longest + 1,
+			maxReceiveMessageSize: limit,
 			codecs:                map[string]Codec{"application/x": fakeStreamCodec{rec, framing}},
 		},
 		ctx:         context.Background(),
@@ -66,10 +72,16 @@ func VerifH_http_recv_stream() {
 	// how many messages are completely contained in wire[:cut]
 	complete := 0
 	off := 0
+	refused := false
 	for i := 0; i < k; i++ {
 		l := len(msgs[i])
 		if !json {
 			l++ // one prefix byte (sizes < 128)
+		}
+		if len(msgs[i]) > limit {
+			// deliveries stop here: refused if enough of it arrives, otherwise a truncated stream
+			refused = off < cut
+			break
 		}
 		if off+l <= cut {
 			complete++
@@ -78,7 +90,7 @@ func VerifH_http_recv_stream() {
 			break
 		}
 	}
-	cleanEnd := off == cut // the stream ends exactly at a message boundary
+	cleanEnd := off == cut && !refused // the stream ends exactly at a message boundary
 	var errFinal error
 	calls := 0
 	for calls = 0; calls < k+2; calls++ {
@@ -106,6 +118,12 @@ func VerifH_http_recv_stream() {
 	vfCheck(len(rec.unmarshal) <= complete, "a phantom, partial or duplicated message was delivered")
 	for i := 0; i < complete && i < len(rec.unmarshal); i++ {
 		vfCheck(vfBytesEq(rec.unmarshal[i], msgs[i]), "delivered message differs from the sent message")
+	}
+	for _, u := range rec.unmarshal {
+		vfCheck(len(u) <= limit, "a message larger than the receive limit was delivered")
+	}
+	if refused {
+		vfCover("over-limit-refused")
 	}
 	if cleanEnd {
 		vfCheck(errFinal == io.EOF, "clean end of stream not reported as io.EOF")
